@@ -13,14 +13,14 @@ FUNCTIONS_ENCODED = ["Node._receive_message", "Node._receive_app_request/_receiv
                      "Application.send_answer", "PeerConnection.close", "PeerStats/SecondSlotCounter (real, concrete clock)"]
 ASSUMPTIONS = ["inductive step instead of N = 1000: after a warm-up in which every kind of transaction/connection attempt has happened once, two further ones of symbolic kinds leave every container size and the live-thread count unchanged",
                "containers with a maxlen (documented fixed-size windows) are checked against their bound instead", "Application.send_request's blocking wait is not part of this check (C10): outbound requests are sent with route_request/send_message"]
-BOUNDS = {"quick": "after the warm-up: a seeded half of the 18 first operations x every second operation (7 transaction kinds, 10 connection-attempt outcomes); 1 peer", "thorough": "every pair; seeded triples"}
+BOUNDS = {"quick": "after the warm-up: every pair of the 22 operations (11 transaction kinds, 11 connection-attempt outcomes); 1 peer", "thorough": "every triple"}
 OUTSIDE = ["N = 1000 runs (replaced by the inductive step)", "2 peers"]
 PEER = B.PEER_HOSTS[0]
 
 OPS = ["in_req_retransmit_rejected", "conn_while_stopping", "in_req_answered", "in_req_rejected_app", "in_req_rejected_avp", "in_req_rejected_realm", "out_req_answered", "dwr_in", "dwr_out",
        "conn_inbound_then_gone", "conn_unknown_peer", "conn_cer_nocommon", "conn_dial_refused", "conn_dial_async_fail", "conn_dial_cea_rejected",
        "conn_dial_ok_then_closed", "conn_second_of_connected_peer", "conn_silent_until_timeout",
-       "in_req_then_conn_gone", "out_req_then_conn_gone", "conn_unknown_peer_fresh_name"]
+       "in_req_then_conn_gone", "out_req_then_conn_gone", "conn_unknown_peer_fresh_name", "in_req_dpr_answer_refused"]
 
 
 def measure(h, skip):
@@ -143,6 +143,21 @@ class Driver(H.Hist):
                 except Exception:
                     pass
                 self.settle()
+        elif name == "in_req_dpr_answer_refused":
+            # the requester asks to disconnect while the application still owes the answer: the answer is refused (NotRoutable),
+            # then the connection ends
+            self._push(c, B.ccr(PEER, i, i).as_bytes())
+            pending = app.requests[-1] if app.requests else None
+            j = self.nid()
+            self._push(c, B.dpr(PEER, j, j).as_bytes())
+            if pending is not None:
+                try:
+                    app.send_answer(app.generate_answer(pending, result_code=2001))
+                except Exception:
+                    pass
+                self.settle()
+            self.ev_gone(c)
+            self.main_conn()
         elif name == "out_req_then_conn_gone":
             req = B.ccr(B.NODE_HOST, 0, i)
             conn, _ = n.route_request(app, req)
@@ -236,15 +251,13 @@ def specs(tier, seed, carve):
     q = tier == "quick"
     rnd = random.Random(seed)
     out = []
-    firsts = list(range(len(OPS)))
-    if q:
-        firsts = sorted(rnd.sample(firsts, 8))
+    firsts = list(range(len(OPS)))          # every pair already in the quick tier (paths run natively)
     for f in firsts:
         out.append(dict(id="growth/2/" + OPS[f], fn="growth", params={"n": 2, "prefix": [f]}, timeout=900,
                         bound="after a warm-up with every kind once: %s followed by any of the %d operations" % (OPS[f], len(OPS))))
     if not q:
         for f in range(len(OPS)):
-            for g in rnd.sample(range(len(OPS)), 5):
+            for g in range(len(OPS)):
                 out.append(dict(id="growth/3/%s/%s" % (OPS[f], OPS[g]), fn="growth", params={"n": 3, "prefix": [f, g]}, timeout=1500,
                                 bound="warm-up, then %s, %s and any third operation" % (OPS[f], OPS[g])))
     return out
